@@ -613,14 +613,14 @@ def gen_special(rng, hid, which):
         return sc.finish(rng.choice([3000, s.ttl_a * 1000 + 3000]))
     if which in ("two-types", "two-types-addr"):
         # the instance is advertised under its type and a subtype PTR
-        br = rng.choice([[TY1, SUB1], [TY1, SUB1], [TY1], [SUB1]]) if which == "two-types" else [TY1, SUB1]
+        br = rng.choice([[TY1, SUB1], [TY1, SUB1], [TY1], [SUB1]])
         sc = Scenario(rng, hid, True, br)
         s = Svc(rng, rng.choice(INST_LABELS), TY1, rng.choice(HOSTS), 2, sub=SUB1)
         s.ttl_ptr = 4500
         if which == "two-types":
             s.ttl_srv = rng.choice([3, 5]); s.ttl_a = 120          # the SRV runs out first: repaired
         else:
-            s.ttl_srv = 120; s.ttl_a = rng.choice([3, 5])          # the address runs out first: residual finding
+            s.ttl_srv = 120; s.ttl_a = rng.choice([3, 5])          # the address runs out first (repaired f108398)
             s.addrs = s.addrs[:1]
         sc.advance(100)
         sc.deliver(s.recs(), 2, v4=True)
